@@ -195,3 +195,91 @@ func TestC14_DeniableRushing(t *testing.T) {
 	ev := evFor("C14")
 	rcheck(t, 60, 3000, func(t *rapid.T) { c14DeniableRushing(t, ev) })
 }
+
+// c14SharedPredicates: predicate objects are documented as reusable.  One Rep object is placed under
+// two different roots (where its secret gets different positions in the variable enumeration), and
+// provers / verifiers of both roots are created and run in a generated interleaving: every proof of
+// these true statements verifies, whatever was created in between.
+func c14SharedPredicates(t *rapid.T, ev *evProp) {
+	suite, gi := genProofSuite(t)
+	g := gi.G
+	B1, B2 := nonzeroPoint(t, gi, "B1").P, nonzeroPoint(t, gi, "B2").P
+	x, y, z := genScalar(t, gi, "x").S, genScalar(t, gi, "y").S, genScalar(t, gi, "z").S
+	pts := map[string]kyber.Point{"B1": B1, "B2": B2, "X": g.Point().Mul(x, B1), "Y": g.Point().Mul(y, B2), "Z": g.Point().Add(g.Point().Mul(z, B1), g.Point().Mul(y, B2))}
+	sec := map[string]kyber.Scalar{"x": x, "y": y, "z": z}
+	a := proof.Rep("X", "x", "B1")
+	b := proof.Rep("Y", "y", "B2")
+	c := proof.Rep("Z", "z", "B1", "y", "B2")
+	roots := map[string]proof.Predicate{
+		"And(a,b)":   proof.And(a, b),
+		"b":          b,
+		"And(b,a)":   proof.And(b, a),
+		"And(c,a,b)": proof.And(c, a, b),
+		"And(a,c)":   proof.And(a, c),
+	}
+	names := []string{"And(a,b)", "b", "And(b,a)", "And(c,a,b)", "And(a,c)"}
+	type job struct {
+		root string
+		prv  proof.Prover
+		vrf  proof.Verifier
+		prf  []byte
+	}
+	var jobs []*job
+	var hist []string
+	nsteps := rapid.IntRange(3, 10).Draw(t, "nsteps")
+	for s := 0; s < nsteps; s++ {
+		switch rapid.SampledFrom([]string{"new", "new", "prove", "verify"}).Draw(t, "step") {
+		case "new":
+			rn := rapid.SampledFrom(names).Draw(t, "root")
+			jobs = append(jobs, &job{root: rn, prv: roots[rn].Prover(suite, sec, pts, nil), vrf: roots[rn].Verifier(suite, pts)})
+			hist = append(hist, fmt.Sprintf("create prover+verifier #%d of %s", len(jobs)-1, rn))
+		case "prove":
+			if len(jobs) == 0 {
+				continue
+			}
+			k := rapid.IntRange(0, len(jobs)-1).Draw(t, "job")
+			j := jobs[k]
+			if j.prf != nil {
+				continue
+			}
+			hist = append(hist, fmt.Sprintf("run prover #%d", k))
+			var err error
+			if pn := safely(func() { j.prf, err = proof.HashProve(suite, "shared", j.prv) }); pn != "" || err != nil {
+				violationOrKnown(t, ev, "C14/hash/"+gi.Name+"/shared-predicate", "prover #%d of %s fails on a true statement: %v %s\nhistory: %s", k, j.root, err, pn, strings.Join(hist, "; "))
+				return
+			}
+		case "verify":
+			if len(jobs) == 0 {
+				continue
+			}
+			k := rapid.IntRange(0, len(jobs)-1).Draw(t, "job")
+			j := jobs[k]
+			if j.prf == nil || j.vrf == nil {
+				continue
+			}
+			hist = append(hist, fmt.Sprintf("run verifier #%d", k))
+			var err error
+			if pn := safely(func() { err = proof.HashVerify(suite, "shared", j.vrf, j.prf) }); pn != "" || err != nil {
+				violationOrKnown(t, ev, "C14/hash/"+gi.Name+"/shared-predicate", "verifier #%d (created with its prover) rejects the honest proof of %s: %v %s\nhistory: %s", k, j.root, err, pn, strings.Join(hist, "; "))
+				return
+			}
+			j.vrf = nil // a verifier object is used once
+		}
+	}
+	// every proof made verifies with a fresh verifier too
+	for k, j := range jobs {
+		if j.prf == nil {
+			continue
+		}
+		if err := proof.HashVerify(suite, "shared", roots[j.root].Verifier(suite, pts), j.prf); err != nil {
+			violationOrKnown(t, ev, "C14/hash/"+gi.Name+"/shared-predicate", "a fresh verifier rejects the honest proof #%d of %s: %v\nhistory: %s", k, j.root, err, strings.Join(hist, "; "))
+			return
+		}
+	}
+	ev.Case(len(jobs) >= 2, "shared predicates: "+strings.Join(hist, "; "), "proof-shared-predicates", "proof:"+gi.Name)
+}
+
+func TestC14_SharedPredicates(t *testing.T) {
+	ev := evFor("C14")
+	rcheck(t, 200, 20000, func(t *rapid.T) { c14SharedPredicates(t, ev) })
+}
